@@ -7,7 +7,7 @@ import numpy as np
 
 ID = "C04"
 PROPS_FILE = "theories/Props/C04.v"
-EXTRACT = ("theories/Extract/XC04.v", "c04", ["entry_recon", "entry_check", "entry_iter", "entry_prep_check"])
+EXTRACT = ("theories/Extract/XC04.v", "c04", ["entry_recon", "entry_check", "entry_iter", "entry_prep_check", "entry_ord_check"])
 PYX = {"_cpmorphology2.pyx": ["grey_reconstruction_loop"]}
 CASE_TIMEOUT = 30
 RULE = ("cases = (seed, mask, footprint, offset) with pixel values given as integer CODES plus a strictly increasing "
@@ -570,16 +570,27 @@ def _bad(o):
     return (not isinstance(o, dict)) or "exc" in o or "crash" in o or "R" not in o
 
 
+def _padded_cells(c):
+    g = _fp_grid(c)
+    return (len(c["seed"]) + 2 * (len(g) // 2)) * (len(c["seed"][0]) + 2 * (len(g[0]) // 2))
+
+
 def model(ctx, cases, outs):
     args = [[c["seed"], c["mask"], _fp_wire(c), _off_arg(c)] for c in cases]
     res = ctx.run_model("entry_recon", args)
     # premise of C04_model_safe_partial, discharged per instance: the set-up state satisfies Inv
     inv = ctx.run_model("entry_prep_check", args)
-    return [{"m": r, "inv": i} for r, i in zip(res, inv)]
+    # premise of C04_loop_total_partial (order invariant Ord on the set-up state), quadratic: small cases only
+    small = [k for k, c in enumerate(cases) if not c.get("bad") and _padded_cells(c) <= 200]
+    ordr = dict(zip(small, ctx.run_model("entry_ord_check", [args[k] for k in small])))
+    ctx.count("ord_check evaluated", len(small))
+    return [{"m": r, "inv": i, "ord": ordr.get(k)} for k, (r, i) in enumerate(zip(res, inv))]
 
 
 def compare(case, out, m):
-    inv, m = m["inv"], m["m"]
+    ordv, inv, m = m.get("ord"), m["inv"], m["m"]
+    if ordv is not None and ordv != 1:
+        return "Spec.ReconInv.ord_check is false on the set-up state of a valid input (premise of C04_loop_total_partial)"
     if isinstance(m, dict) or isinstance(inv, dict):
         return "model error: %s %s" % (m, inv)
     if not case.get("bad") and inv != 1:
